@@ -208,6 +208,9 @@ class ModelWorld:
     def max_open(self):
         return self.fs.max_open
 
+    def reset_max_open(self):
+        self.fs.max_open = len(self.fs.open_fds)
+
     # ---- crash injection
     def install_crash(self, crash_at, durable):
         fs, orig = self.fs, self.fs.tick
@@ -500,7 +503,10 @@ class RealWorld(RealImage):
         return n
 
     def max_open(self):
-        return 0
+        return 0  # not observable from outside on the real file system; decided on the model only
+
+    def reset_max_open(self):
+        pass
 
     # ---- instrumentation (module globals of the freshly imported modules; /repo is not edited)
     def tick(self, what):
